@@ -69,6 +69,22 @@ def _centre_index(bshape):
     return i
 
 
+def _se_args(case, dtype):
+    """the Bc argument in the protocol of C01's model of `get_structuring_elem` (`arg=none | int | array`, `dt=` the dtype
+    the element is cast to: the image's, bool for close_holes; no `dt` for float images: non-zero stays non-zero)"""
+    arg = case.get('bcarg', 'array')
+    isf = np.dtype(dtype).kind == 'f'
+    dts = '' if isf else f" dt={gen.dt_name(dtype)}"
+    if arg == 'none':
+        return 'arg=none' + dts
+    if arg != 'array':
+        return f'arg=int v={int(arg)}' + dts
+    bc = case['bc']
+    if isf or any(isinstance(v, float) for v in bc):
+        bc = [1 if v else 0 for v in bc]
+    return f"arg=array bshape={gen.enc_shape(case['bshape'])} bc={gen.enc_arr([int(v) for v in bc])}" + dts
+
+
 def _line(case):
     op = case['op']
     dt = case['dtype']
@@ -77,13 +93,11 @@ def _line(case):
     if op in LOC_OPS:
         data = [okey(v, dt) for v in _mk(case).ravel().tolist()]
         kind = 'loc' if op.startswith('loc') else 'reg'
-        bc = [1 if v else 0 for v in case['bc']]
         return (f"c14 kind={kind} min={1 if op.endswith('min') else 0} shape={shape} data={gen.enc_arr(data)} "
-                f"bshape={bsh} bc={gen.enc_arr(bc)}")
+                + _se_args(case, dt))
     if op == 'close_holes':
         data = [1 if v else 0 for v in case['data']]
-        bc = [1 if v else 0 for v in case['bc']]
-        return f"c14 kind=holes shape={shape} data={gen.enc_arr(data)} bshape={bsh} bc={gen.enc_arr(bc)}"
+        return f"c14 kind=holes shape={shape} data={gen.enc_arr(data)} " + _se_args(case, 'bool')
     if op == 'hitmiss':
         return (f"c14 kind=hitmiss shape={shape} data={gen.enc_arr(case['data'])} bshape={bsh} "
                 f"bc={gen.enc_arr(case['bc'])}")
@@ -139,8 +153,12 @@ def _eval_single(cases):
         cls = _contig_class(Al)
         regular = True
         if op in LOC_OPS:
-            Bc = _bc(case, A.dtype)
-            Bc0 = Bc.copy()
+            arg = case.get('bcarg', 'array')
+            if arg == 'array':
+                Bc = _bc(case, case.get('bcdtype', A.dtype))
+            else:
+                Bc = None if arg == 'none' else int(arg)
+            Bc0 = None if Bc is None or isinstance(Bc, int) else Bc.copy()
             if case.get('_hist'):
                 # the result is asked for in a caller's buffer that already holds marks (all True: a buffer reused from an
                 # earlier image): the extrema are what the definition says, not the union with what was there
@@ -151,11 +169,11 @@ def _eval_single(cases):
             else:
                 got = np.asarray(getattr(mh, op)(Al, Bc))
             g = [int(x) for x in got.ravel(order='C').tolist()]
-            if not np.array_equal(Bc0, Bc):
+            if Bc0 is not None and not np.array_equal(Bc0, Bc):
                 # `_remove_centre` works on a copy: the caller's structuring element keeps its centre
                 f.append(dict(kind='model', key=f'{op}:bc-modified', detail=dict(before=Bc0.ravel().tolist(), after=Bc.ravel().tolist())))
             regular = drv['regular'] == '1'     # the proved-sound checkers starShapedB && symNbB of the Lean model
-            if regular != _symmetric_star(case):
+            if 'bcdtype' not in case and regular != _symmetric_star(case):
                 f.append(dict(kind='model', key='regular-check-disagrees', detail=dict(lean=regular)))
             # locmax/locmin: the definition holds for every star-shaped neighbourhood (C14_locmax_eq_spec; boxes with an
             # even side by C14_locmax_eq_spec_any_box), regmax/regmin need symmetry as well
@@ -181,7 +199,7 @@ def _eval_single(cases):
                 if case['bc'][ci] == v:
                     continue
                 bc2 = list(case['bc']); bc2[ci] = v
-                got2 = np.asarray(getattr(mh, op)(Al, _bc(case, A.dtype, bc2)))
+                got2 = np.asarray(getattr(mh, op)(Al, _bc(case, case.get('bcdtype', A.dtype), bc2)))
                 if not np.array_equal(got2, got):
                     f.append(dict(kind='property' if use_spec else 'model', key=f'{op}:centre-dependent',
                                   detail=dict(centre=v, got=g, other=[int(x) for x in got2.ravel().tolist()])))
@@ -388,9 +406,26 @@ def _rand_extrema_case(rng):
 def _bc_variation(rng, case):
     """Bc as callers pass it: non-zero entries other than 1 (the wrapper casts Bc to the dtype of the image; anything
     non-zero is a member), a Fortran-ordered / strided Bc, sometimes a dirty caller-provided output buffer"""
-    if case['dtype'] != 'bool' and rng.random() < 0.12:
+    r = rng.random()
+    if case['dtype'] != 'bool' and r < 0.12:
         v = rng.choice([2, 3, 7])
         case['bc'] = [v if x else 0 for x in case['bc']]
+    elif np.dtype(case['dtype']).kind != 'f' and r < 0.2:
+        # Bc in a wider dtype than the image: `np.asanyarray(Bc, f.dtype)` wraps (256 is 0 in uint8, -1 is 255, bool: != 0)
+        case['bcdtype'] = 'int64'
+        pool = [256, -1, 255, 65536, -256, 1, 2, 2 ** 32, 128]
+        case['bc'] = [rng.choice(pool) if x else 0 for x in case['bc']]
+    elif r < 0.3:
+        # Bc = None or an integer: get_structuring_elem builds the cross (translate_sizes: 4/8 in 2-D, 6 in 3-D)
+        ndim = len(case['shape'])
+        arg = rng.choice(['none', '0', '1', '2', '3', '4', '6', '8', '-1'])
+        case['bcarg'] = arg
+        v = 1 if arg == 'none' else int(arg)
+        v = {(2, 4): 1, (2, 8): 2, (3, 6): 1}.get((ndim, v), v)
+        case['bshape'] = [3] * ndim
+        case['bc'] = [1 if sum(abs(i - 1) for i in idx) <= v else 0 for idx in np.ndindex(*case['bshape'])]
+        case.pop('bclayout', None)
+        return
     if rng.random() < 0.15:
         case['bclayout'] = rng.choice(['F', 'strided', 'negstride', 'transposed'])
     if rng.random() < 0.08:
